@@ -101,11 +101,9 @@ theorem inv_pushToken (cfg : Cfg) {c : Core} (tok : List Byte) (h : Inv c) : Inv
 
 theorem inv_pushInteger {c : Core} (tok : List Byte) (h : Inv c) : Inv (pushInteger c tok) := by
   unfold pushInteger
-  split
-  · split
-    · exact inv_push _ h
-    · exact inv_fail _ h
-  · exact inv_fail _ h
+  repeat' split
+  all_goals try simp only []
+  all_goals first | exact inv_push _ h | exact inv_fail _ h
 
 theorem inv_pushChar (T : Tables) {c : Core} (tok : List Byte) (h : Inv c) : Inv (pushChar T c tok) := by
   unfold pushChar
@@ -228,8 +226,14 @@ theorem inv_plainStep1 (T : Tables) {s : S1} (p : PMode) (b : Byte) (h : Inv s.c
       · exact h
     · exact inv_setBase _ h
     · exact inv_congr h rfl rfl
+    · exact h
     · exact inv_fail _ h
     · exact inv_fail _ h
+
+theorem inv_chrStartStep1 (T : Tables) {s : S1} (b : Byte) (h : Inv s.core) : Inv (chrStartStep1 T s b).core := by
+  unfold chrStartStep1
+  repeat' split
+  all_goals first | exact h | exact inv_fail _ h
 
 theorem inv_tokStep1 (T : Tables) (cfg : Cfg) {s : S1} (t : TMode) (b : Byte) (h : Inv s.core) :
     Inv (tokStep1 T cfg s t b).core := by
@@ -285,6 +289,7 @@ theorem inv_step1 (T : Tables) (cfg : Cfg) (s : S1) (b : Byte) (h : Inv s.core) 
     · exact inv_strStep1 T _ b h
     · exact inv_escStep1 T b h
     · exact inv_runeStep1 T b h
+    · exact inv_chrStartStep1 T b h
 
 theorem inv_run1 (T : Tables) (cfg : Cfg) (bs : List Byte) (s : S1) (h : Inv s.core) :
     Inv (run1 T cfg s bs).core := by
@@ -329,6 +334,7 @@ theorem kept_consume (T : Tables) (cfg : Cfg) (t : TMode) (c : Core) (tok : List
   · show Kept c (pushInteger c tok)
     unfold pushInteger
     repeat' split
+    all_goals try simp only []
     all_goals first | exact kept_push _ _ | exact kept_fail _ _
   · exact kept_push _ _
 
@@ -337,7 +343,7 @@ theorem kept_consume (T : Tables) (cfg : Cfg) (t : TMode) (c : Core) (tok : List
     behind a quote-like prefix that still waits for its datum -/
 def StopsInsideForm (s : S1) : Prop :=
   s.core.starts ≠ []
-  ∨ (∃ m, s.mode = .str m) ∨ s.mode = .esc ∨ s.mode = .rune
+  ∨ (∃ m, s.mode = .str m) ∨ s.mode = .esc ∨ s.mode = .rune ∨ s.mode = .chrStart
   ∨ s.mode = .plain .sharp ∨ s.mode = .plain .sharpNum
   ∨ s.mode = .plain .blockComment ∨ s.mode = .plain .blockEnd
   ∨ (∃ p, s.mode = .plain p ∧ s.core.stack ≠ [])
@@ -369,18 +375,20 @@ theorem finishCore_err (T : Tables) (cfg : Cfg) (s : S1) (hinv : Inv s.core) (hh
     simp only []
     have hk := kept_consume T cfg t s.core s.tok
     have hi := inv_consume T cfg t s.tok hinv
-    rcases hstop with h | ⟨m, h⟩ | h | h | h | h | h | h | ⟨p, h, _⟩ <;> try (simp [hm] at h)
+    rcases hstop with h | ⟨m, h⟩ | h | h | h | h | h | h | h | ⟨p, h, _⟩ <;> try (simp [hm] at h)
     rcases hk.2 with h2 | ⟨e, h2⟩
     · exact hstack _ (by rw [h2, hh]) (inv_stack_ne_nil hi (by rw [hk.1]; exact h))
     · exact ⟨e, by simp [h2]⟩
   | str m => cases m <;> exact hfail _ _
   | esc => exact hfail _ _
   | rune => exact hfail _ _
+  | chrStart => exact hfail _ .parse
   | plain p =>
     have hne : p ≠ .sharp → p ≠ .sharpNum → p ≠ .blockComment → p ≠ .blockEnd → s.core.stack ≠ [] := by
       intro h1 h2 h3 h4
-      rcases hstop with h | ⟨m, h⟩ | h | h | h | h | h | h | ⟨p', _, h⟩
+      rcases hstop with h | ⟨m, h⟩ | h | h | h | h | h | h | h | ⟨p', _, h⟩
       · exact inv_stack_ne_nil hinv h
+      · simp [hm] at h
       · simp [hm] at h
       · simp [hm] at h
       · simp [hm] at h
